@@ -93,7 +93,7 @@ func TestCheck(t *testing.T) {
 	// into collection cycles of a tiny heap
 	debug.SetGCPercent(800)
 	ctx := context.Background()
-	n := int64(cfg.Pick(48, 80))
+	n := int64(cfg.Pick(48, 240))
 	// the last cases of every shard belong to the typed sub-workload (typed_test.go)
 	rep.Require("typed_histories_equal_to_uninterrupted_run", 50)
 	rep.Require("spans_histories_equal_to_uninterrupted_run", 50)
